@@ -87,6 +87,13 @@ package standard
 //@   requires proposal != nil
 //@   chaninv respCh (m): m != nil
 //@   requires forall k int :: 0 <= k && k < len(providers) ==> providers[k] != nil
+//@   // C20: a relay's goroutine is only started while the result channel has room for one more result than there are
+//@   // goroutines already: as each sends at most once, none can block once the first block has been taken
+//@   ghost nstarted Int = 0
+//@   at call go#1: assert nstarted < chancap(arg2)
+//@   at call go#1: ghost nstarted = nstarted + 1
+//@   loop 1
+//@     invariant nstarted == rangeindex + 1
 //@   // nil result: the proposal is no longer blinded and holds the full block a relay returned
 //@   ensures result == nil ==> !proposal.Blinded && proposal.Version == old(proposal.Version)
 //@   modifies proposal.Blinded, proposal.BellatrixBlinded, proposal.Bellatrix, proposal.CapellaBlinded, proposal.Capella, proposal.DenebBlinded, proposal.Deneb
@@ -100,6 +107,8 @@ package standard
 //@     invariant signedProposalResponse != nil ==> signedProposalResponse.Data != nil
 //@   // the relay is sent precisely the signed blinded block
 //@   at call UnblindProposal: assert arg1 != nil && arg1.Proposal != nil && arg1.Proposal.Version == proposal.Version && arg1.Proposal.Bellatrix == proposal.BellatrixBlinded && arg1.Proposal.Capella == proposal.CapellaBlinded && arg1.Proposal.Deneb == proposal.DenebBlinded
+//@   // C20: at most one result is sent
+//@   exit sends() <= 1
 //@
 //@ func (*Service).proposeBlock
 //@   requires duty != nil && duty.account != nil
